@@ -25,6 +25,10 @@ CONTAINER_ARRAYS = ('dhas', 'dval', 'llen', 'lelt')
 def heap_sort(name):
   if name in HEAP_SORTS:
     return HEAP_SORTS[name]
+  if name.startswith('g:'):      # ghost scalar: changed only through contract clauses
+    return I
+  if name.startswith('ga:'):     # ghost array
+    return ValArr
   assert name.startswith('f:'), name
   return ValArr
 
